@@ -146,6 +146,13 @@ def histories(draw, kinds_weighted, max_ops=20, n_variants=(1, 3), gen_kw=None, 
             ops.append({'op': 'session', 'ops': sops})
         else:
             ops.append(adapt(op))
+            if op['op'] == 'force_task' and op.get('delete') and not op.get('reset_only') \
+                    and 'force_chain' in kinds_weighted and draw(st.integers(0, 2)) == 0:
+                # the task's own result is gone, those of its dependants are still there: now force it through the
+                # chain, with and without deleting (a forced closure whose root has nothing stored)
+                ops.append({'op': 'force_chain', 'slot': op['slot'], 'member': op['member'], 'tasks': [op['task']],
+                            'recompute': draw(st.booleans()), 'delete': draw(st.integers(0, 3)) != 0,
+                            'as': draw(st.sampled_from(['name', 'object'])), 'through_multi': draw(st.booleans())})
     h = {'program': base['program'], 'variants': variants, 'ops': ops, 'salt': salt}
     if nm:
         h['name_mode'] = True
